@@ -780,3 +780,46 @@ M('C11', 'c11-with-args-mutates-source-kwargs', 'openhtf/core/phase_descriptor.p
   "    new_info = data.attr_copy(self)\n    new_info.options = new_info.options.format_strings(**kwargs)\n    new_info.extra_kwargs.update(known_arguments)",
   "    new_info = data.attr_copy(self)\n    new_info.options = new_info.options.format_strings(**kwargs)\n    new_info.extra_kwargs = self.extra_kwargs\n    new_info.extra_kwargs.update(known_arguments)",
   'with_args writes the new arguments into the source phase')
+
+
+# ---------------------------------------------------------------- round 5
+M('C09', 'c09-sigint-iterates-live-registry', 'openhtf/core/test_descriptor.py',
+  "        for test in list(cls.TEST_INSTANCES.values()):\n",
+  "        for test in cls.TEST_INSTANCES.values():\n",
+  'F34 reverted: the SIGINT handler iterates the registry other tests delete themselves from')
+M('C09', 'c09-nested-sigint-reenters-handler', 'openhtf/core/test_descriptor.py',
+  "    if cls._HANDLING_SIGINT:\n",
+  "    if False:\n",
+  'F35 reverted: a SIGINT inside the handler runs the handler again on top of itself')
+M('C09', 'c09-sigint-latch-rearmed-by-any-finishing-test', 'openhtf/core/test_descriptor.py',
+  "        del self.TEST_INSTANCES[self.uid]\n        self._executor.close()\n",
+  "        del self.TEST_INSTANCES[self.uid]\n        Test.HANDLED_SIGINT_ONCE = False\n        self._executor.close()\n",
+  'the raise-KeyboardInterrupt-once latch is re-armed whenever a test finishes')
+M('C12', 'c12-record-handler-lock-gap', 'openhtf/util/logs.py',
+  "      with self.lock:\n        self.emit(record)\n",
+  "      self.acquire()\n      try:\n        self.emit(record)\n      finally:\n        self.release()\n",
+  'F36 reverted: acquire() before the try block, a killed thread can die owning the handler lock')
+M('C14', 'c14-bounded-stream-queue', 'openhtf/plugs/usb/adb_protocol.py',
+  "    msg_queue = queue.Queue()\n",
+  "    msg_queue = queue.Queue(64)\n",
+  'per-stream message queue bounded: the pumping thread blocks in put() without a time-out')
+M('C15', 'c15-id-released-after-clse-write', 'openhtf/plugs/usb/adb_protocol.py',
+  "        del self._stream_transport_map[stream_transport.local_id]\n        # If we never got a remote_id, there's no CLSE message to send.\n        if stream_transport.remote_id:\n          self.transport.write_message(\n              adb_message.AdbMessage('CLSE', stream_transport.local_id,\n                                     stream_transport.remote_id), timeout)\n        return True\n",
+  "        # If we never got a remote_id, there's no CLSE message to send.\n        if stream_transport.remote_id:\n          self.transport.write_message(\n              adb_message.AdbMessage('CLSE', stream_transport.local_id,\n                                     stream_transport.remote_id), timeout)\n        del self._stream_transport_map[stream_transport.local_id]\n        return True\n",
+  'local id released only after the CLSE write succeeded')
+M('C18', 'c18-wake-watchers-outside-the-lock', 'openhtf/util/__init__.py',
+  "    with self._lock:\n      for event in self._update_events:\n        event.set()\n      self._update_events.clear()\n",
+  "    with self._lock:\n      events = self._update_events\n      self._update_events = weakref.WeakSet()\n    for event in events:\n      event.set()\n",
+  'notify_update detaches the watcher set and wakes it outside the lock (a killed notifier loses them)')
+M('C10', 'c10-record-handler-without-lock', 'openhtf/util/logs.py',
+  "  def emit(self, record):\n    \"\"\"Save a logging.LogRecord to our test record.\n",
+  "  def createLock(self):\n    self.lock = None\n\n  def handle(self, record):\n    rv = self.filter(record)\n    if rv:\n      self.emit(record)\n    return rv\n\n  def emit(self, record):\n    \"\"\"Save a logging.LogRecord to our test record.\n",
+  'record handler without a lock: the two appends of add_log_record interleave')
+M('C06', 'c06-notification-hook-not-detached', 'openhtf/core/measurements.py',
+  "    if not notification_cb and self.dimensions:\n",
+  "    if notification_cb and self.dimensions:\n",
+  'dimensioned value keeps its notification hook after the phase was finalized')
+M('C05', 'c05-monitored-phase-drops-result', 'openhtf/core/monitors.py',
+  "        return phase_desc(test_state, *args, **kwargs)\n",
+  "        phase_desc(test_state, *args, **kwargs)\n",
+  'the @monitors wrapper drops the result of the body')
